@@ -77,3 +77,85 @@ def replay(rep, record):
             print(f"  {lab} -> {d.apply(name, args)}")
     finally:
         d.close()
+
+
+def gen_trace(rnd, ntasks=5, nops=30, max_depth=3, max_scopes=8):
+    """a random program of up to 5 tasks: async / sync scopes, ctx.spawn trees, normal leaves (with waiting), ends,
+    failures, cancellations (asyncio and ctx.cancel), checks and one testament, recorded from the real library.  What is
+    enabled is read off the real tasks' statuses; only the scope stacks are mirrored."""
+    d = ScopeTasksDriver()
+    d.reset(dict(pc=[0] * ntasks))
+    w = d.w
+    tr = [dict(ev="Init", init={})]
+    stack = {t: [] for t in range(1, ntasks + 1)}  # per task: list of is_async flags
+    waiting = set()
+    nsid = 0
+    will_set = False
+
+    def sync_stacks():
+        # a task that was waiting for members and is back at its gate has left that scope
+        for t in list(waiting):
+            st = w.status(str(t))
+            if st == "gate":
+                stack[t].pop()
+                waiting.discard(t)
+            elif st != "busy":
+                waiting.discard(t)
+
+    try:
+        for _ in range(nops):
+            sync_stacks()
+            st = {t: w.status(str(t)) for t in range(1, ntasks + 1)}
+            gate = [t for t in st if st[t] == "gate"]
+            busy = [t for t in st if st[t] == "busy"]
+            unborn = [t for t in st if st[t] == "unborn"]
+            ch = []
+            for t in gate:
+                if len(stack[t]) < max_depth and nsid < max_scopes:
+                    ch += [("Open", [t, True])] * 2 + [("Open", [t, False])]
+                if unborn:
+                    ch += [("Spawn", [t, unborn[0]])] * 3
+                if stack[t]:
+                    ch += [("Leave", [t])] * 2
+                elif t != 1:
+                    ch += [("End", [t])]
+                ch += [("Check", [t])]
+                if rnd.random() < 0.2:   # destructive operations are rare, so that programs grow before they collapse
+                    if t != 1:
+                        ch += [("Fail", [t])]
+                    ch += [("Cancel", [t]), ("CtxCancel", [t])]
+                if not will_set and unborn and not any(stack[t]):
+                    ch += [("SetWill", [t])]
+            for t in busy:
+                if rnd.random() < 0.3:
+                    ch += [("Cancel", [t])]
+            if not ch:
+                break
+            name, args = rnd.choice(ch)
+            t = args[0]
+            if name == "Open":
+                if args[1] and will_set == t:
+                    continue
+                nsid += 1
+                stack[t].append(args[1])
+            elif name == "Leave":
+                if stack[t][-1]:
+                    waiting.add(t)   # resolved by sync_stacks once the real task is back at its gate
+                else:
+                    stack[t].pop()
+            elif name == "SetWill":
+                will_set = t
+            o = d.apply(name, tuple(args))
+            if will_set and w.status(str(will_set)) not in ("gate", "busy"):
+                will_set = False if w.status(str(will_set)) in ("cancelled", "done", "failed") or True else will_set
+            tr.append(dict(ev=name, args=args, obs=dict(pc=list(o["pc"]), check=o["check"])))
+    finally:
+        d.close()
+    return tr
+
+
+TRACE_KW = dict(
+    variables=["pc", "stack", "tg", "grp", "origin", "owner", "residue", "extc", "will", "nsid", "nops", "obs"],
+    constants=dict(NTasks=5, MaxDepth=3, MaxScopes=8, MaxOps=100000, Bug='"none"'),
+    config_vars=[], actions=dict(Open=2, Spawn=2, Leave=1, End=1, Fail=1, Cancel=1, CtxCancel=1, Check=1, SetWill=1),
+    invariants=["NoOrphans", "NoIdleWait", "NotSwallowed", "NoEscape"])
